@@ -120,27 +120,54 @@ func (c *Ctx) c15StateCheck() {
 			return ft.Kind == "cmp" && ft.Pos && ft.Op.String() == "<" && idxOf(ft.A, role) && isConst(ft.B, "0")
 		}}
 	}
-	// the search predicate compares the row's Y with the requested Y
+	// the search predicate compares the row's Y with the requested Y. The searches are the IndexFunc
+	// expressions tested by the branch facts (slices.IndexFunc with a closure, or a hand-written
+	// first-index helper in its canonical form slices.IndexFunc(list, pred:(...)))
+	okPred := func(e *Ex) bool {
+		if e == nil || e.K != "bin" || e.S != "==" {
+			return false
+		}
+		a0, a1 := unwrapAnyof(e.Args[0]), unwrapAnyof(e.Args[1])
+		return (strings.HasSuffix(a0.String(), ".Y") && a1.String() == "elem("+ys+")") || (strings.HasSuffix(a1.String(), ".Y") && a0.String() == "elem("+ys+")")
+	}
 	nPred := 0
-	for _, a := range op.AnonFuncs {
-		ao := c.P.OriginsOf(a)
-		for _, r := range Returns(a) {
-			if len(r.Results) != 1 {
+	seenSearch := map[ssa.CallInstruction]bool{}
+	for _, e := range o.AllEdges() {
+		ft := o.EdgeFact(e)
+		if ft == nil || ft.Kind != "cmp" {
+			continue
+		}
+		for _, side := range []*Ex{ft.A, ft.B} {
+			if !isCall(side, "slices.IndexFunc") || side.Call == nil || seenSearch[side.Call] || len(side.Args) != 2 {
 				continue
 			}
-			e := ao.Of(r.Results[0])
-			nPred++
-			if e.K == "bin" {
-				// a captured loop variable of a callback closure prints as anyof:(x)
-				for i, a := range e.Args {
-					if a.K == "anyof" {
-						e = mk("bin", e.S, e.Args[0], e.Args[1])
-						e.Args[i] = a.Args[0]
-					}
+			seenSearch[side.Call] = true
+			if side.Args[1].K == "pred" {
+				nPred++
+				R.Check("R3", fk, "row matched by its Y against the requested Y", c.P.InstrPos(side.Call), okPred(side.Args[1].Args[0]), "a row matches when its Y equals the Y being answered", short(side.Args[1].String(), 120))
+				continue
+			}
+			var pred *ssa.Function
+			if len(side.Call.Common().Args) == 2 {
+				switch v := side.Call.Common().Args[1].(type) {
+				case *ssa.MakeClosure:
+					pred, _ = v.Fn.(*ssa.Function)
+				case *ssa.Function:
+					pred = v
 				}
 			}
-			okP := e.K == "bin" && e.S == "==" && ((strings.HasSuffix(e.Args[0].String(), ".Y") && e.Args[1].String() == "elem("+ys+")") || (strings.HasSuffix(e.Args[1].String(), ".Y") && e.Args[0].String() == "elem("+ys+")"))
-			R.Check("R3", c.P.FuncKey(a), "row matched by its Y against the requested Y", c.P.InstrPos(r), okP, "a row matches when its Y equals the Y being answered", short(e.String(), 120))
+			if pred == nil {
+				continue
+			}
+			ao := c.P.OriginsOf(pred)
+			for _, r := range Returns(pred) {
+				if len(r.Results) != 1 {
+					continue
+				}
+				nPred++
+				pe := ao.Of(r.Results[0])
+				R.Check("R3", c.P.FuncKey(pred), "row matched by its Y against the requested Y", c.P.InstrPos(r), okPred(pe), "a row matches when its Y equals the Y being answered", short(pe.String(), 120))
+			}
 		}
 	}
 	if nPred < 2 {
